@@ -107,16 +107,60 @@ class RTHooks(Hooks):
         return NotImplemented
 
     def truth(self, it, term):
-        if isinstance(term, Sym):
-            return True
-        if isinstance(term, App) and term.op in ('leafval', 'leaf'):
-            return True
+        # a component / payload is a value of unknown content: "", 0x, 0, False, {} are falsy - its truthiness is not known (both ways);
+        # but it IS a value: never None
+        if isinstance(term, App) and term.op == 'is' and len(term.args) == 2 and term.args[1] is None and isinstance(term.args[0], Sym):
+            return False
         return None
 
     def compare(self, it, op, a, b, node):
         if op == '<=' and isinstance(a, App) and a.op == 'len':
             return True  # length guards of byte payloads (Fr <= 32 bytes): payloads written by the encoder have the encoder's length
         return NotImplemented
+
+
+class LitHooks(RTHooks):
+    """to_literal builds Micheline literal *classes*: X.create_type(args=[...]) of a class registered with prim=P is the node P(args)."""
+
+    def inline(self, it, fi):
+        return fi.name == 'to_literal' or super().inline(it, fi)
+
+    def call(self, it, callee, args, kwargs, node):
+        if isinstance(callee, FuncRef) and callee.fi is not None and callee.fi.name == 'create_type' and isinstance(callee.self_val, ClassRef):
+            ci = self.repo.classes.get(callee.self_val.qual)
+            if ci is not None and not self.repo.is_subclass(ci.qualname, MT):
+                a = kwargs.get('args', args[0] if args else [])
+                if ci.name == 'MichelineSequence':
+                    return App('seq', *list(a))
+                if ci.keywords.get('prim') is not None:
+                    return App('lit', ci.keywords['prim'], *list(a))
+        if isinstance(callee, App) and callee.op == 'attr' and callee.args[1] == 'to_literal' and isinstance(callee.args[0], Sym):
+            return App('leaflit', callee.args[0])
+        return super().call(it, callee, args, kwargs, node)
+
+
+def norm_lit(v: Any) -> Any:
+    if isinstance(v, ClassRef):
+        return App('lit', v.qual.rsplit('.', 1)[-1].replace('Literal', ''))
+    if isinstance(v, App) and v.op in ('lit', 'seq'):
+        args = [norm_lit(x) for x in v.args]
+        if v.op == 'lit' and args and args[0] == 'Pair':
+            # Pair a (Pair b c) and Pair a b c are two spellings of one value: right combs are compared flattened
+            while isinstance(args[-1], App) and args[-1].op == 'lit' and args[-1].args and args[-1].args[0] == 'Pair':
+                args = args[:-1] + list(args[-1].args[1:])
+        return App(v.op, *args)
+    return v
+
+
+def lit_of_value(v: Any) -> Any:
+    """the Micheline JSON written by to_micheline_value as a literal tree"""
+    if isinstance(v, dict) and 'prim' in v:
+        return App('lit', v['prim'], *[lit_of_value(x) for x in v.get('args', [])])
+    if isinstance(v, list):
+        return App('seq', *[lit_of_value(x) for x in v])
+    if isinstance(v, App) and v.op == 'leafval':
+        return App('leaflit', v.args[0])
+    return v
 
 
 def shapes_for(repo: Repo, q: str) -> Dict[str, Obj]:
@@ -230,6 +274,31 @@ def run(repo: Repo, chk: Check) -> None:
                         chk.ob('R-PAIR', fm.qualname, want in dec, f'{label}: {e_} is read back by {want}', fm.loc, {'encoders': enc, 'decoders': dec},
                                what=f'{label}: the value is written with {e_} but read with {dec or "no decoder"}')
     chk.minimum('writer/reader compositions', ncomp, 90)
+
+    # ---- 5 the literal writer (to_literal: what APPLY bakes into the PUSH of a partially applied lambda) is a sibling of the value writer:
+    #        on every value shape it must denote the same Micheline tree as to_micheline_value(mode='readable')
+    chk.set_clause('C11.5')
+    nlit = 0
+    for q, prim, tm, fm in sorted(classes):
+        if prim not in ('option', 'or', 'pair', 'list', 'set', 'map'):
+            continue
+        tl = repo.find_method(q, 'to_literal')
+        if tl is None or tl.cls.qualname == MT:
+            continue
+        for sname, obj_proto in shapes_for(repo, q).items():
+            import copy
+            i1, i2 = Interp(repo, RTHooks(repo, q), max_depth=10), Interp(repo, LitHooks(repo, q), max_depth=10)
+            i1.max_recursion = i2.max_recursion = 6
+            r_val = i1.run_paths(lambda i, o=obj_proto: i.call_function(FuncRef(tm, copy.deepcopy(o), True), [], {'mode': 'readable'}, None, force_inline=True))
+            r_lit = i2.run_paths(lambda i, o=obj_proto: i.call_function(FuncRef(tl, copy.deepcopy(o), True), [], {}, None, force_inline=True))
+            want = {vrepr(norm_lit(lit_of_value(p.value))) for p in r_val if p.outcome == 'return'}
+            got = {vrepr(norm_lit(p.value)) if p.outcome == 'return' else f'raise {p.value.cls}' for p in r_lit}
+            nlit += 1
+            chk.ob('R-PAIR', tl.qualname, bool(want) and got == want, f'{prim} {sname}: to_literal denotes the tree to_micheline_value writes', tl.loc,
+                   {'literal': sorted(got)[:3], 'value': sorted(want)[:3]},
+                   what=f'{prim} {sname}: to_literal gives {sorted(got)[:2]} where the value is written as {sorted(want)[:2]} '
+                        '(APPLY captures a different value than the one on the stack)')
+    chk.minimum('literal-writer shapes', nlit, 10)
 
     # ---- 2 totality of rendering ---------------------------------------------------------------------------------------------
     chk.set_clause('C11.2')
